@@ -1,3 +1,51 @@
-(* C05 — interim *)
-From Verif Require Import Base Token TokEngine Lex Headers Blocks Pairing Fold ScanFile.
-Example C05_ex_empty : scan_file LPython [] = OK []. Proof. vm_compute. reflexivity. Qed.
+(* C05 — every reported measurement is well-formed, for every input.
+   Statements only; proofs in Scope/WfProofs*.v, Gsm/DistinctStartProofs.v.
+   The hypothesis on token positions is what the lexing model guarantees (C16). *)
+From Verif Require Import Base Token Lex LexProofs Headers Blocks Pairing Fold ScanFile WfProofs WfProofsCerts.
+From Coq Require Import Sorted.
+
+(* wf_meas code m: m starts at the position of a code token, ends just past a code token, start
+   index < end index, its name is the text of an identifier token inside the span, and
+   1 <= length <= number of distinct lines of code tokens of the span *)
+Theorem C05_wellformed : forall l toks ms,
+  StronglySorted pos_lt (filter_tokens false toks) -> scan_file l toks = OK ms ->
+  Forall (wf_meas (filter_tokens false toks)) ms.
+Proof. exact WfProofs.C05_wellformed. Qed.
+
+(* listed in source order with pairwise distinct starts — all seven languages (JavaScript and
+   TypeScript through the kernel-computed distinct-start certificate on the captured patterns) *)
+Theorem C05_source_order : forall l toks ms,
+  StronglySorted pos_lt (filter_tokens false toks) -> scan_file l toks = OK ms ->
+  StronglySorted loc_lt (map m_start ms).
+Proof. exact C05_source_order_all. Qed.
+
+(* the file's line total is the sum of its function lengths *)
+Theorem C05_loc_is_sum : forall l code_text lts ms loc,
+  analyze l code_text lts = OK (ms, loc) -> loc = fold_right (fun m a => (m_value m + a)%Z) 0%Z ms.
+Proof. exact WfProofs.C05_loc_is_sum. Qed.
+
+(* end to end from the lexer contract (any text, any lexer output satisfying it) *)
+Theorem C05_analyze : forall l code_text lts ms loc,
+  contract code_text lts -> analyze l code_text lts = OK (ms, loc) ->
+  Forall (wf_meas (filter_tokens false (lex code_text lts false))) ms /\
+  StronglySorted loc_lt (map m_start ms) /\
+  loc = fold_right (fun m a => (m_value m + a)%Z) 0%Z ms.
+Proof. exact WfProofsCerts.C05_analyze. Qed.
+
+Print Assumptions C05_wellformed.
+Print Assumptions C05_source_order.
+Print Assumptions C05_loc_is_sum.
+Print Assumptions C05_analyze.
+
+Open Scope Z_scope.
+(* the input that was mis-measured before the GD22 repair: f is no longer reported with a span
+   that does not contain its name *)
+Example C05_ex_gd22 :
+  scan_file LPython
+    [mkTok KKeyword [100;101;102] 1 1; mkTok KName [111] 1 5; mkTok KPunct [40] 1 6; mkTok KPunct [41] 1 7; mkTok KPunct [58] 1 8;
+     mkTok KKeyword [100;101;102] 2 3; mkTok KName [103] 2 7; mkTok KPunct [40] 2 8; mkTok KPunct [41] 2 9; mkTok KPunct [58] 2 10;
+     mkTok KKeyword [97;115;121;110;99] 3 5;
+     mkTok KKeyword [100;101;102] 4 3; mkTok KName [102] 4 7; mkTok KPunct [40] 4 8; mkTok KPunct [41] 4 9; mkTok KPunct [58] 4 10;
+     mkTok KKeyword [112;97;115;115] 4 12; mkTok KName [120] 5 3]
+  = OK [mkMeas [111] (mkLoc 1 1) (mkLoc 5 4) 3; mkMeas [103] (mkLoc 2 3) (mkLoc 3 10) 2].
+Proof. vm_compute. reflexivity. Qed.
